@@ -75,6 +75,9 @@ def analyse_fd(chk, prog, f, closer_fns, fresh_ctors):
                 p = fd_path(args[0])
                 if p is None:
                     a0 = X.strip(args[0])
+                    if a0.get("k") == "ref" and any(x[0] == "held" and x[1] == a0.get("d") for x in state):
+                        # the descriptor that was moved out of the field into this local is released here
+                        return frozenset(x for x in state if not (x[0] == "held" and x[1] == a0.get("d")))
                     for x in state:
                         if x[0] == "fdcopy" and a0.get("k") == "ref" and x[1] == a0.get("d"):
                             p = x[2]
@@ -88,6 +91,14 @@ def analyse_fd(chk, prog, f, closer_fns, fresh_ctors):
             p = fd_path(n["ch"][0])
             if p is not None:
                 st = set(x for x in state if not (x[0] in ("closed", "dangling") and x[1] == p))
+                if ("closed", p) not in state:
+                    # a local that holds the field's current value takes the old descriptor over when the field is overwritten
+                    for x in list(state):
+                        if x[0] == "fdcopy" and x[2] == p:
+                            st.discard(x)
+                            st.add(("held", x[1], n["i"]))
+                else:
+                    st = set(x for x in st if not (x[0] == "fdcopy" and x[2] == p))
                 cv = X.const_val(n["ch"][1])
                 if cv is not None and cv < 0:
                     st.add(("closed", p))
@@ -116,29 +127,40 @@ def analyse_fd(chk, prog, f, closer_fns, fresh_ctors):
                     st.add(("closed", a))
             if fct[0] == "eq" and fct[1].endswith("->fd") and fct[2] == -1:
                 st.add(("closed", fct[1]))
+            if fct[0] == "cmp" and ((fct[1] == "<" and fct[3] == "0") or (fct[1] == "<=" and fct[3] == "-1")):
+                # the local that took a descriptor over turns out to hold none
+                st = set(x for x in st if not (x[0] == "held" and "d%d" % x[1] == fct[2]))
         return frozenset(st)
 
     def join(a, b):
         # closed: must (intersection); dangling: may (union)
-        return frozenset([x for x in a if x[0] in ("closed", "fdcopy") and x in b] + [x for x in (a | b) if x[0] == "dangling"])
+        return frozenset([x for x in a if x[0] in ("closed", "fdcopy") and x in b] + [x for x in (a | b) if x[0] in ("dangling", "held")])
 
     def visit(state, n, blk):
         if n.get("k") == "assign" and n.get("op") == "=":
             p = fd_path(n["ch"][0])
             if p is not None:
-                stores.append((n, p, ("closed", p) in state))
+                stores.append((n, p, ("closed", p) in state or any(x[0] == "fdcopy" and x[2] == p for x in state), None))
         if n.get("k") == "return":
             for x in state:
                 if x[0] == "dangling":
                     dangling_at_ret.append((n, x[1]))
+                if x[0] == "held":
+                    stores.append((f.nodes.get(x[2], n), "d%d" % x[1], False, n))
     flow.forward(cfg, frozenset(), transfer, refine=refine, join=join, visit=visit)
     cnt = 0
     if not is_init:
-        for n, p, ok in stores:
+        seen_st = set()
+        for n, p, ok, at_ret in stores:
+            if (n["i"], ok, at_ret is None) in seen_st:
+                continue
+            seen_st.add((n["i"], ok, at_ret is None))
             cnt += 1
             chk.ob("F1", f.name, "fd-store:" + canon(f, n)[:40], ok, loc=f.loc(n),
-                   detail="%s stores %s while the field may still hold an open descriptor that no close() on this path released: "
-                          "the descriptor is leaked" % (f.name, X.render(n)[:50]),
+                   detail=("%s stores %s while the field may still hold an open descriptor that no close() on this path released: "
+                           "the descriptor is leaked" % (f.name, X.render(n)[:50])) if at_ret is None else
+                          ("%s overwrites the field (%s) after saving the old descriptor in a local, and returns at %s without closing "
+                           "that local: the descriptor is leaked" % (f.name, X.render(n)[:50], f.loc(at_ret))),
                    proof="dominated by close()/closer call, a test fd < 0, or the object is freshly constructed")
     seen = set()
     for n, p in dangling_at_ret:
